@@ -221,4 +221,51 @@ def run(ctx: Ctx):
                 'delays as supporting evidence; non-trivial = batch of >= 2 with a non-identity completion order')
     run_call_model(ctx)
     run_training(ctx)
+    run_fidelity_executor(ctx)
     run_real_pools(ctx)
+
+
+def run_fidelity_executor(ctx: Ctx):
+    """models that depend on model_fidelity, trained and called through an executor: every task must run at ITS fidelity"""
+    import random
+    import c05
+    rng = ctx.rng
+    for n in range(ctx.pick(6, 50)):
+        seed = rng.randint(0, 10 ** 9)
+        states = []
+        for mode in ('serial', 'executor'):
+            r2 = random.Random(seed)
+            nx = r2.randint(1, 2); na = r2.randint(1, 2); ny = r2.randint(1, 2); kpl = r2.randint(1, 2)
+            levels = [r2.randint(1, 2) for _ in range(nx)]
+            comp, fns = c05.make_rough_component(r2, nx, na, ny, levels, kpl)
+            mx = (2,) * na + tuple(levels)
+            if mode == 'serial':
+                c05.grow(r2, comp, na, mx, 4)
+                direct = comp.call_model({f'x{k}': np.array([0.3, 0.6, 0.9]) for k in range(nx)}, model_fidelity=[(0,) * na, (1,) * na, (2,) * na])
+            else:
+                sched = random.Random(seed + 1)
+                ex = SchedExecutor(lambda m: sched.sample(range(m), m))
+                saved = install_wait(ex)
+                try:
+                    active = set()
+                    from p_misc import margin
+                    for _ in range(4):
+                        m_ = margin(active, mx)
+                        if not m_:
+                            break
+                        c = r2.choice(m_)
+                        comp.activate_index(tuple(c[:na]), tuple(c[na:]), executor=ex)
+                        active.add(c)
+                    direct = comp.call_model({f'x{k}': np.array([0.3, 0.6, 0.9]) for k in range(nx)},
+                                             model_fidelity=[(0,) * na, (1,) * na, (2,) * na], executor=ex)
+                finally:
+                    restore_wait(saved)
+            st = systems.comp_state(comp)
+            states.append((st, canon_ds(direct)))
+        case = {'fidelity_executor': n, 'seed': seed}
+        ctx.case(case, nontrivial=True, kind='fidelity-executor')
+        if states[0][1] != states[1][1]:
+            ctx.violate('C15:executor-ignores-model-fidelity', f'call_model with per-sample fidelities: serial {states[0][1]} vs executor {states[1][1]}', case)
+        if states[0][0]['data'] != states[1][0]['data'] or states[0][0]['active'] != states[1][0]['active']:
+            ctx.violate('C15:training-data-depends-on-executor', 'training data stored by activate_index(executor=...) differ from the serial run '
+                        '(same activations)', case)
